@@ -1,5 +1,7 @@
 package corr
 
+import "math"
+
 func init() {
 	Runners["C16"] = runC16
 }
@@ -11,7 +13,26 @@ func staticSrc(r *Rng) SrcSpec {
 	return GenSrc(r, KindNames[r.Intn(len(KindNames))])
 }
 
+// special floats: every operator x {NaN, +Inf, -Inf, small exact values} on both sides, both widths, both forms
+func runC16Special(p *Plan) {
+	lefts := []float64{math.NaN(), math.Inf(1), math.Inf(-1), 0, 1.5, -2}
+	rights := []string{"NaN", "nan", "Inf", "+Inf", "-Inf", "inf", "infinity", "0", "1.5", "-2", "1e999", "-1e999", "x", ""}
+	for _, kind := range []string{"float64", "float32"} {
+		for _, form := range []string{"v", "p"} {
+			for _, l := range lefts {
+				for _, rt := range rights {
+					for op := 0; op <= 7; op++ {
+						OpStaticCmpSpecial(p.Out, kind, form, l, op, rt)
+						p.Out.Count("special-float:" + fclass(l)[:1])
+					}
+				}
+			}
+		}
+	}
+}
+
 func runC16(p *Plan) {
+	runC16Special(p)
 	r := NewRng(p.Seed)
 	reps := scale(p.Tier, 50, 400)
 	for _, kind := range KindNames {
